@@ -25,9 +25,59 @@ func isCallTo(in ssa.Instruction, pkg string, names ...string) bool {
 	return false
 }
 
+// noReturnFns: repository functions none of whose paths returns (every path ends in os.Exit, log.Fatal, panic or a call to another such
+// function). Computed on demand as a least fixpoint.
+var noReturnFns = map[*ssa.Function]bool{}
+
+func computeNoReturn(fns []*ssa.Function) {
+	for changed := true; changed; {
+		changed = false
+		for _, fn := range fns {
+			if noReturnFns[fn] || len(fn.Blocks) == 0 {
+				continue
+			}
+			// can a Return be reached from the entry when control stops at no-return calls?
+			seen := map[*ssa.BasicBlock]bool{}
+			work := []*ssa.BasicBlock{fn.Blocks[0]}
+			returns := false
+			for len(work) > 0 {
+				b := work[len(work)-1]
+				work = work[:len(work)-1]
+				if seen[b] {
+					continue
+				}
+				seen[b] = true
+				cut := false
+				for _, in := range b.Instrs {
+					if isNoReturnCall(in) {
+						cut = true
+						break
+					}
+					if _, ok := in.(*ssa.Return); ok {
+						returns = true
+					}
+				}
+				if !cut {
+					work = append(work, b.Succs...)
+				}
+			}
+			if !returns {
+				noReturnFns[fn] = true
+				changed = true
+			}
+		}
+	}
+}
+
 // noReturn: calls after which control does not continue.
 func isNoReturnCall(in ssa.Instruction) bool {
-	return isCallTo(in, "os", "Exit") || isCallTo(in, "log", "Fatal", "Fatalf", "Fatalln", "Panic", "Panicf", "Panicln")
+	if isCallTo(in, "os", "Exit") || isCallTo(in, "log", "Fatal", "Fatalf", "Fatalln", "Panic", "Panicf", "Panicln") {
+		return true
+	}
+	if sc := staticCallee(in); sc != nil && noReturnFns[sc] {
+		return true
+	}
+	return false
 }
 
 // liveReach computes, for main-like functions, which instructions can execute before `target` on some path, treating
@@ -182,6 +232,7 @@ func (c *Ctx) stdoutWriters(skip map[*ssa.Function]bool) map[*ssa.Function]strin
 
 func ruleCLIStdout(c *Ctx, rule string) {
 	r := c.R
+	computeNoReturn(c.SrcFuncs("main"))
 	mainFn := c.Fn("main", "main")
 	if mainFn == nil {
 		r.Ob(rule, "anchor main.main", "").Und("not found")
@@ -358,6 +409,7 @@ func shortCallee(call ssa.CallInstruction) string {
 // ruleCLIExits implements C18.R3: exits carry a non-zero status and every validation/compile failure exit precedes RunFiles.
 func ruleCLIExits(c *Ctx, rule string) {
 	r := c.R
+	computeNoReturn(c.SrcFuncs("main"))
 	mainFn := c.Fn("main", "main")
 	if mainFn == nil {
 		r.Ob(rule, "anchor main.main", "").Und("not found")
@@ -385,6 +437,20 @@ func ruleCLIExits(c *Ctx, rule string) {
 				ob.Bad("os.Exit is called with status 0 (or a non-constant) on a failure path")
 				return
 			}
+		} else if sc := staticCallee(in); sc != nil && noReturnFns[sc] {
+			// a helper that never returns: every os.Exit in it must carry a non-zero status
+			bad := false
+			instrsOf(sc, func(x ssa.Instruction) {
+				if isCallTo(x, "os", "Exit") {
+					if k, ok := constInt(x.(ssa.CallInstruction).Common().Args[0]); !ok || k == 0 {
+						bad = true
+					}
+				}
+			})
+			if bad {
+				ob.Bad("the helper " + fnName(sc) + " exits with status 0 (or a non-constant) on a failure path")
+				return
+			}
 		}
 		for _, rc := range runCalls {
 			if live.after(rc, in) {
@@ -394,7 +460,7 @@ func ruleCLIExits(c *Ctx, rule string) {
 		}
 		ob.OKnt("non-zero status and no RunFiles call can precede it")
 	})
-	r.Floor(rule, "failure exits in main.main", n, 5)
+	r.Floor(rule, "failure exits in main.main", n, 2)
 	// helpers called after RunFiles must not contain exits either
 	for _, rc := range runCalls {
 		instrsOf(mainFn, func(in ssa.Instruction) {
